@@ -436,7 +436,7 @@ impl Case
             Some(i) => match self.circs[i].twin.cstate()
             {
                 None => Twin::NoneState,
-                Some(a) => if self.circs[i].tainted { any = true; Twin::WordsAny(a.len()) } else { Twin::Words(a.to_vec()) }
+                Some(a) => { any = false; Twin::Words(a.to_vec()) }
             }
         };
         if !self.may_execute(&call, &twin, h.is_none()) { return; }
@@ -486,7 +486,7 @@ impl Case
         {
             (Some(i), Some(s), Some(qs)) => {
                 let l = s.to_ascii_lowercase();
-                if is_documented(&l) == Some(nparams)
+                if is_documented(&l) == Some(nparams) || is_documented(&l) == Some(0)
                 {
                     let tp = self.twin_params(&params);
                     let c = &mut self.circs[i];
@@ -516,7 +516,7 @@ impl Case
         {
             (Some(i), Some(s), Some(qs), Some(ct)) => {
                 let l = s.to_ascii_lowercase();
-                if is_documented(&l) == Some(nparams)
+                if is_documented(&l) == Some(nparams) || is_documented(&l) == Some(0)
                 {
                     let tp = self.twin_params(&params);
                     let c = &mut self.circs[i];
@@ -808,13 +808,13 @@ fn step(c: &mut Case, pf: &Profile)
                     let mut k = c.rng.below(5) as usize; if k == want { k = (k + 1) % 5; }
                     let ps = (0..k).map(|_| P::Direct(angle(&mut c.rng, false))).collect();
                     let nm = mixed_case(&mut c.rng, name);
-                    c.add_gate(h, nm.as_bytes(), Some(vec![0]), Some(ps), false, 0);
+                    c.add_gate(h, nm.as_bytes(), Some(vec![0]), Some(ps), true, 0);
                 },
                 3 => { // wrong arity (accepted by add_gate, refused or worse later)
                     let name = *c.rng.pick(&["x", "h", "cx", "swap", "cz", "s"]);
                     let k = c.rng.below(4) as usize;
                     let qs = (0..k).map(|_| c.rng.below(nq.max(1) as u64) as usize).collect();
-                    c.add_gate(h, name.as_bytes(), Some(qs), Some(vec![]), true, 0);
+                    c.add_gate(h, name.as_bytes(), Some(qs), Some(vec![]), name == "h", 0);
                 },
                 4 => { // out-of-range qubit
                     let name = *c.rng.pick(&["x", "cx", "rz"]);
@@ -828,7 +828,7 @@ fn step(c: &mut Case, pf: &Profile)
                 _ => { // duplicated qubits
                     let name = *c.rng.pick(&["cx", "swap", "cz"]);
                     let q = c.rng.below(nq.max(1) as u64) as usize;
-                    c.add_gate(h, name.as_bytes(), Some(vec![q, q]), Some(vec![]), true, 0);
+                    c.add_gate(h, name.as_bytes(), Some(vec![q, q]), Some(vec![]), nq > 1, 0);
                 }
             }
             return;
@@ -955,12 +955,14 @@ fn step(c: &mut Case, pf: &Profile)
     }
     else if r < 72
     {
+        // a circuit with a non-deterministic operation is never run: its outcome (even ok/err) would
+        // depend on the thread RNG, which the twin does not share
         let n = if malformed && c.rng.below(3) == 0 { 0 } else { 1 + c.rng.below(6) as usize };
-        c.execute(h, n);
+        if tainted { let w = c.rng.below(3) as usize; c.export(h, w); } else { c.execute(h, n); }
     }
-    else if r < 75 { c.reexecute(h); }
+    else if r < 75 { if tainted { c.histogram(h); } else { c.reexecute(h); } }
     else if r < 80 { c.cstate(h); }
-    else if r < 84 { if !(tainted && executed) { c.histogram(h); } else { c.cstate(h); } }
+    else if r < 84 { let _ = executed; c.histogram(h); }
     else if r < 90 { let w = c.rng.below(3) as usize; c.export(h, w); }
     else if r < 92 { let q = c.rng.coin(); c.nr(h, q); }
     else if r < 98
@@ -1005,7 +1007,7 @@ fn main()
     let mode = args.get(2).cloned().unwrap_or_else(|| "run".into());
     let seed = SplitMix64::from_env().0;
     log_init();
-    silence_panics();
+    if std::env::var("C19_TRACE").is_err() { silence_panics(); }
     warm_up();
     let size = std::mem::size_of::<Circuit>();
     let align = std::mem::align_of::<Circuit>();
